@@ -67,7 +67,26 @@ var writes = []writeKind{
 	{"silent", 0, false, 0}, {"header-200", 200, false, 0}, {"header-204", 204, false, 0}, {"header-301", 301, false, 0}, {"header-404", 404, false, 0},
 	{"header-500", 500, false, 0}, {"header-599", 599, false, 0}, {"body-only", 0, true, 0}, {"header-200+body", 200, true, 0}, {"header-404+body", 404, true, 0}, {"header-500+body", 500, true, 0},
 	{"flush-only", 0, false, 1}, {"flusherror-only", 0, false, 2}, {"header-404+flush", 404, false, 1},
-	{"body-streamed-with-io.Copy", 0, true, 3}, // through io.ReaderFrom, should the writer have one
+	{"body-streamed-with-io.Copy", 0, true, 3},                                 // through io.ReaderFrom, should the writer have one
+	{"body-streamed-with-io.Copy-from-a-source-that-fails-midway", 0, true, 4}, // where the behaviour panics "after writing", the panic comes out of the source's second Read
+}
+
+// midwayReader delivers three bytes, then (armed) panics inside Read, else delivers the rest
+type midwayReader struct {
+	calls int
+	armed bool
+	boom  any
+}
+
+func (m *midwayReader) Read(p []byte) (int, error) {
+	m.calls++
+	if m.calls == 1 {
+		return copy(p, "hel"), nil
+	}
+	if m.armed {
+		panic(m.boom)
+	}
+	return copy(p, "lo"), io.EOF
 }
 
 type nilErr struct{ x int }
@@ -147,7 +166,13 @@ func (b behaviour) run(s *httpd.Store, yield bool) {
 	if yield {
 		vsched.Yield("in-handler")
 	}
-	if b.w.body && b.w.flush == 3 {
+	if b.w.body && b.w.flush == 4 {
+		src := &midwayReader{}
+		if b.point == pAfter {
+			src.armed, src.boom = true, panics[b.pk].val()
+		}
+		io.Copy(s.W, src)
+	} else if b.w.body && b.w.flush == 3 {
 		io.Copy(s.W, io.LimitReader(strings.NewReader("hello"), 5)) // a source without WriteTo
 	} else if b.w.body {
 		s.W.Write([]byte("hello"))
